@@ -6,6 +6,7 @@ package verifharness
 // weights: C01 is replay-heavy, C02 mutation-heavy, C05 ack-conflict-heavy.
 
 import (
+	"bytes"
 	"fmt"
 	"math/rand"
 	"os"
@@ -1134,6 +1135,19 @@ func (g *pktGen) doEvm() {
 	}
 	switch {
 	case x < 12:
+		if g.rng.Intn(10) < 4 {
+			// value-boundary classes: the commitment word starts with one / two zero bytes or ends with zero bytes
+			class := []string{"lead0", "lead0", "trail0", "trail0", "lead00", "trail00"}[g.rng.Intn(6)]
+			if ep := w.evmGroundPacket(ev, ev.inSeq, class, g.rng.Uint32()); ep != nil {
+				ev.inSeq++
+				ev.cur[string(ev.contract)].storage[string(ep.slot)] = pktSha(ep.bz)
+				ev.cur[string(ev.contract)].nonce++
+				ev.in = append(ev.in, ep)
+				w.r.Count("evm.send." + ev.kind)
+				w.r.Count("evm.send.ground." + class)
+				break
+			}
+		}
 		w.evmSend(ev, int64(1+g.rng.Intn(300)), true)
 	case x < 28:
 		g.evmRelayIn(ev)
@@ -1177,6 +1191,10 @@ func (g *pktGen) evmRelayIn(ev *pktEvm) {
 		signer, proof, tag = g.tssSignerProof(ev.host, signer, proof)
 	}
 	out := w.recv(ev.host, ep.bz, proof, g.evmHeight(h), signer, tag)
+	if out.ok && ep.class != "" && strings.HasPrefix(tag, "evm-genuine") {
+		w.r.Count("evm.word." + ep.class)
+		w.r.Count("evm.word." + ep.class + "." + ev.kind + ".recv")
+	}
 	if out.ok {
 		ep.recvd = true
 		ep.ackBz = out.ackBz
@@ -1206,8 +1224,20 @@ func (g *pktGen) evmSendOutWith(ev *pktEvm, success, deliver int) {
 	} else {
 		ackBz = w.defAckEnc(2, []byte{}, "onRecvPackt: binding is not exist", relayer, s.p.FeeOption)
 	}
+	class := ""
+	if success < 0 && g.rng.Intn(10) < 4 {
+		// value-boundary classes of the acknowledgement hash (success and error acknowledgements)
+		c := []string{"lead0", "lead0", "trail0", "trail0", "lead00", "trail00"}[g.rng.Intn(6)]
+		var a packettypes.Acknowledgement
+		if a.ABIDecode(ackBz) == nil {
+			if gb := w.evmGroundAck(a.Code, a.Message, relayer, c, g.rng.Uint32()); gb != nil {
+				ackBz, class = gb, c
+				w.defAck(ackBz)
+			}
+		}
+	}
 	slot := pktEvmSlot(host.PacketAcknowledgementKey(s.p.SrcChain, s.p.DstChain, s.p.Sequence))
-	ep := &pktEvmPacket{bz: s.bz, p: s.p, slot: slot, ackBz: ackBz, outward: true}
+	ep := &pktEvmPacket{bz: s.bz, p: s.p, slot: slot, ackBz: ackBz, outward: true, class: class}
 	ev.out = append(ev.out, ep)
 	if deliver == 1 || (deliver < 0 && g.rng.Intn(10) < 6) {
 		g.evmDeliverOut(ev, ep)
@@ -1247,6 +1277,10 @@ func (g *pktGen) evmRelayAck(ev *pktEvm) {
 		signer, proof, tag = g.tssSignerProof(ev.host, signer, proof)
 	}
 	out := w.ack(ev.host, ep.bz, ep.ackBz, proof, g.evmHeight(h), signer, tag)
+	if out.ok && ep.class != "" && strings.HasPrefix(tag, "evm-genuine") {
+		w.r.Count("evm.word." + ep.class)
+		w.r.Count("evm.word." + ep.class + "." + ev.kind + ".ack")
+	}
 	if out.ok {
 		ep.acked = true
 		g.accAcks = append(g.accAcks, &pktAckRec{chain: ev.host, packet: ep.bz, ack: ep.ackBz, proof: proof, height: g.evmHeight(h), signer: signer})
@@ -1438,6 +1472,34 @@ func (g *pktGen) evmForgeRecv(ev *pktEvm) {
 			pend = append(pend, ep)
 		}
 	}
+	if g.rng.Intn(6) == 0 {
+		// shifted-word: forge the message first (hash H ending in zero bytes — mirror: starting with zero bytes), let the
+		// contract really hold the shifted word 0^k‖H[0..32-k) (mirror: H[k..]‖0^k) under the slot, prove that slot genuinely
+		mirror := g.rng.Intn(3) == 0
+		class := []string{"trail0", "trail0", "trail00"}[g.rng.Intn(3)]
+		if mirror {
+			class = []string{"lead0", "lead0", "lead00"}[g.rng.Intn(3)]
+		}
+		fp := w.evmGroundPacket(ev, ev.inSeq, class, g.rng.Uint32())
+		if fp == nil {
+			return
+		}
+		hsh := pktSha(fp.bz)
+		word := pktShift(hsh, mirror)
+		if bytes.Equal(word, hsh) {
+			return
+		}
+		ev.cur[string(ev.contract)].storage[string(fp.slot)] = word
+		ev.cur[string(ev.contract)].nonce++
+		h := w.evmProvable(ev)
+		proof := ev.states[h].genuine(ev.contract, fp.slot).json()
+		tag := "evm-shifted-word"
+		if mirror {
+			tag = "evm-shifted-word-mirror"
+		}
+		w.recv(ev.host, fp.bz, proof, g.evmHeight(h), 0, tag)
+		return
+	}
 	stored := len(pend) > 0 && g.rng.Intn(2) == 0
 	var ep *pktEvmPacket
 	if stored {
@@ -1490,6 +1552,56 @@ func (g *pktGen) evmForgeAck(ev *pktEvm) {
 	if len(pend) == 0 {
 		g.evmSendOut(ev)
 		return
+	}
+	if g.rng.Intn(6) == 0 {
+		var target *pktEvmPacket
+		for _, a := range ev.out {
+			if !a.acked && !a.ackStored {
+				target = a
+			}
+		}
+		if target == nil {
+			g.evmSendOutWith(ev, -1, 0)
+			for _, a := range ev.out {
+				if !a.acked && !a.ackStored {
+					target = a
+				}
+			}
+		}
+		if target != nil {
+			mirror := g.rng.Intn(3) == 0
+			class := []string{"trail0", "trail0", "trail00"}[g.rng.Intn(3)]
+			if mirror {
+				class = []string{"lead0", "lead0", "lead00"}[g.rng.Intn(3)]
+			}
+			relayer := ev.host.regAddr[ev.host.accts[0].addr.String()][ev.name]
+			code, msg := uint64(0), ""
+			if g.rng.Intn(2) == 0 {
+				code, msg = 2, "onRecvPackt: binding is not exist" // a forged ERROR acknowledgement would refund
+			}
+			forged := w.evmGroundAck(code, msg, relayer, class, g.rng.Uint32())
+			if forged == nil {
+				return
+			}
+			hsh := pktSha(forged)
+			word := pktShift(hsh, mirror)
+			if bytes.Equal(word, hsh) {
+				return
+			}
+			ev.cur[string(ev.contract)].storage[string(target.slot)] = word
+			ev.cur[string(ev.contract)].nonce++
+			h := w.evmProvable(ev)
+			proof := ev.states[h].genuine(ev.contract, target.slot).json()
+			tag := "evm-shifted-word"
+			if mirror {
+				tag = "evm-shifted-word-mirror"
+			}
+			out := w.ack(ev.host, target.bz, forged, proof, g.evmHeight(h), g.rng.Intn(3), tag)
+			if out.ok {
+				target.acked = true // (only a broken verifier gets here)
+			}
+			return
+		}
 	}
 	ep := pend[g.rng.Intn(len(pend))]
 	path := host.PacketAcknowledgementKey(ep.p.SrcChain, ep.p.DstChain, ep.p.Sequence)
